@@ -108,8 +108,16 @@ For a general description of dotted items (items) and ℇ-moves of items, see:
 */
 func (this *Item) Emoves() (items []*Item) {
 	newItems := util.NewStack(8).Push(this)
+	seen := make(map[string]bool)
 	for newItems.Len() > 0 {
 		item := newItems.Pop().(*Item)
+
+		// A repetition or option whose body can match the empty string (e.g.
+		// {{'a'}}) leads back to an item that was already expanded.
+		if seen[item.hashKey] {
+			continue
+		}
+		seen[item.hashKey] = true
 
 		if item.Reduce() || item.nextIsTerminal() {
 			items = append(items, item)
